@@ -320,3 +320,119 @@ theorem procBucket_key (e : ε) (ph pa id : String) (rs : List (LRun ε))
           exact heq
 
 end Bobo.Decider
+
+namespace Bobo.Decider
+open Bobo.Run Bobo.Lattice
+set_option linter.unusedSimpArgs false
+variable {ε : Type}
+
+/-- records announced as updated by a bucket carry that bucket's key. -/
+theorem upd_keys (e : ε) (ph pa : String) (rs : List (LRun ε)) (hnames : ∀ r ∈ rs, r.pat.name = pa) :
+    ∀ x ∈ (procBucket e ph rs).upd, x.phen = ph ∧ x.pat = pa := by
+  induction rs with
+  | nil => simp [procBucket_nil]
+  | cons r rest ih =>
+    have ih' := ih (fun x hx => hnames x (List.mem_cons_of_mem _ hx))
+    rw [procBucket_cons]
+    have hs := contrib_shape e ph r
+    generalize contrib e ph r = cr at hs
+    cases hs with
+    | completed r' hid => simpa [RunsAcc.append] using ih'
+    | halted r' hid => simpa [RunsAcc.append] using ih'
+    | updated r' hid hpat hle =>
+      intro x hx
+      simp only [RunsAcc.append, List.singleton_append, List.mem_cons] at hx
+      rcases hx with e1 | e1
+      · subst e1
+        exact ⟨rfl, by simp only [LRun.ser]; rw [hpat]; exact hnames r (List.mem_cons_self ..)⟩
+      · exact ih' x e1
+    | same => simpa [RunsAcc.append] using ih'
+
+theorem joinAll_map_flatMap {α} (l : List α) (f : α → List Status) :
+    joinAll (l.flatMap f) = joinAll (l.map (fun a => joinAll (f a))) := by
+  induction l with
+  | nil => rfl
+  | cons a rest ih => rw [List.flatMap_cons, joinAll_append, List.map_cons, joinAll_cons, ih]
+
+theorem joinAll_const_or_bot {α} (l : List α) (p : α → Prop) [DecidablePred p] (X : Status) :
+    joinAll (l.map (fun a => if p a then X else bot)) = if (∃ a ∈ l, p a) then X else bot := by
+  induction l with
+  | nil => simp [joinAll]
+  | cons a rest ih =>
+    rw [List.map_cons, joinAll_cons, ih]
+    by_cases ha : p a
+    · simp only [ha, if_true]
+      have : (∃ b ∈ a :: rest, p b) := ⟨a, List.mem_cons_self .., ha⟩
+      simp only [this, if_true]
+      split
+      · exact join_idem X
+      · exact join_bot_right X
+    · simp only [ha, if_false, join_bot_left]
+      by_cases hr : ∃ b ∈ rest, p b
+      · obtain ⟨b, hb, hpb⟩ := hr
+        have : (∃ c ∈ a :: rest, p c) := ⟨b, List.mem_cons_of_mem _ hb, hpb⟩
+        rw [if_pos (⟨b, hb, hpb⟩ : ∃ b ∈ rest, p b), if_pos this]
+      · have : ¬ (∃ c ∈ a :: rest, p c) := by
+          rintro ⟨c, hc, hpc⟩
+          rcases List.mem_cons.mp hc with e1 | e1
+          · subst e1; exact ha hpc
+          · exact hr ⟨c, e1, hpc⟩
+        rw [if_neg hr, if_neg this]
+
+/-- **`_check_against_runs`, one key**: unless the run finished on this event (then its record is in the
+completed or halted list of the notification), the key's position after the loop is the join of its position
+before with what the `updated` list says about it. -/
+theorem checkAgainstRuns_key (e : ε) (t : Table ε) (h : TableWF t) (ph pa id : String) :
+    (∃ x ∈ (checkAgainstRuns e t).2.1 ++ (checkAgainstRuns e t).2.2.1, x.id = id) ∨
+    stOf ((checkAgainstRuns e t).1.runAt ph pa id) =
+      join (stOf (t.runAt ph pa id))
+        (joinAll (((checkAgainstRuns e t).2.2.2.filter (keyMatch ph pa id)).map recSt)) := by
+  obtain ⟨hl1, hl2, hl3⟩ := checkAgainstRuns_lists e t
+  rcases procBucket_key e ph pa id (t.runsFrom ph pa) (h.ids ph pa) (h.names ph pa) with ⟨x, hx, hxid⟩ | heq
+  · left
+    -- the bucket is non-empty, hence one of the table's buckets
+    have hne : t.runsFrom ph pa ≠ [] := by
+      intro e0; rw [e0] at hx; simp [procBucket_nil] at hx
+    have hb := buckets_of_runsFrom_ne_nil t ph pa hne
+    refine ⟨x, ?_, hxid⟩
+    rw [hl1, hl2]
+    rcases List.mem_append.mp hx with hh | hh
+    · exact List.mem_append.mpr (.inl (List.mem_flatMap.mpr ⟨_, hb, hh⟩))
+    · exact List.mem_append.mpr (.inr (List.mem_flatMap.mpr ⟨_, hb, hh⟩))
+  · right
+    rw [runAt_def, runsFrom_checkAgainstRuns, heq, runAt_def]
+    congr 1
+    rw [hl3, List.filter_flatMap, List.map_flatMap, joinAll_map_flatMap]
+    -- every bucket contributes either the value of THE bucket (ph, pa) or nothing
+    have hper : ∀ b ∈ t.buckets,
+        joinAll (((procBucket e b.1 b.2.2).upd.filter (keyMatch ph pa id)).map recSt) =
+          if (b.1 = ph ∧ b.2.1 = pa) then
+            joinAll (((procBucket e ph (t.runsFrom ph pa)).upd.filter (keyMatch ph pa id)).map recSt)
+          else bot := by
+      intro b hb
+      obtain ⟨bph, bpa, brs⟩ := b
+      have hrs := mem_buckets t h bph bpa brs hb
+      by_cases hk : bph = ph ∧ bpa = pa
+      · obtain ⟨e1, e2⟩ := hk; subst e1 e2
+        simp only [and_self, if_true, hrs]
+      · simp only [hk, if_false]
+        have : (procBucket e bph brs).upd.filter (keyMatch ph pa id) = [] := by
+          rw [List.filter_eq_nil_iff]
+          intro x hx hkm
+          have hkeys := upd_keys e bph bpa brs (by rw [← hrs]; exact h.names bph bpa) x hx
+          have := (keyMatch_iff ph pa id x).mp hkm
+          exact hk ⟨hkeys.1.symm.trans this.1.symm, hkeys.2.symm.trans this.2.1.symm⟩
+        simp [this, joinAll]
+    rw [List.map_congr_left hper, joinAll_const_or_bot]
+    split
+    · rfl
+    · rename_i hno
+      -- no bucket (ph, pa): it is empty, so it says nothing
+      have : t.runsFrom ph pa = [] := by
+        cases hr : t.runsFrom ph pa with
+        | nil => rfl
+        | cons a l =>
+          exact absurd ⟨(ph, pa, t.runsFrom ph pa), buckets_of_runsFrom_ne_nil t ph pa (by rw [hr]; simp), rfl, rfl⟩ hno
+      simp [this, procBucket_nil, joinAll]
+
+end Bobo.Decider
